@@ -22,6 +22,14 @@ Fault bound: every single non-default assignment (full behaviour list), every pa
 each direction.  Separately: every sequence of length <= 4 over {take, send, drop, queue, sendcopy} on one message on a
 bare ``ProxiedCircuit`` x {OUT, IN} x {reliable, unreliable} x {acks, none}.
 
+Async-subscriber family: an addon coroutine on the virtual loop owns ``subscribe_async`` (left by: normal exit or exception before
+any message, cancellation while waiting, normal exit / exception / cancellation after message 1) or ``wait_for`` (satisfied,
+timed out by advancing virtual time, future cancelled; with and without timeout) x {session, region handler} x take
+{True, False} x direction x reliability of message 1 x order of the later messages; afterwards two matching datagrams
+(reliable + unreliable) and one non-matching probe per direction must each be forwarded exactly once with no proxy-made
+PacketAck, and the handler's subscriber count must be back at its baseline (clauses subscriber-leak,
+next-datagram-forwarded, no-proxy-ack-for-forwarded; for a cancelled wait_for future: waitfor-cancel-leak).
+
 Oracle (clause per sentence).  A boring reference model of the documented dispatch rules predicts which hooks run and
 whether the message is claimed; the wire is observed through the taps.
   at-most-once                  the original Message object reaches ``sendto`` <= 1 times
@@ -742,6 +750,198 @@ def _machine_worker(chunk):
     return part.dump()
 
 
+# ---- async-subscriber family: subscribe_async / wait_for on the virtual loop -------------------------------------------
+SA_BEH = ("exit_before", "raise_before", "cancel_waiting", "exit_after_1", "raise_after_1", "cancel_after_1")
+WF_BEH = (("got_1", None), ("got_1", 5.0), ("timeout", 5.0), ("cancel", None), ("cancel", 5.0))
+
+
+def async_cases():
+    for level in ("session", "region"):
+        for take in (True, False):
+            for d in (OUT, IN):
+                for rel1 in (0, 1):
+                    for order in (0, 1):
+                        for beh in SA_BEH:
+                            yield ("subscribe_async", level, take, beh, None, d, rel1, order)
+                        for beh, tmo in WF_BEH:
+                            yield ("wait_for", level, take, beh, tmo, d, rel1, order)
+
+
+def async_case(api, level, take, beh, tmo, d, rel1, order) -> Tuple[List[Dict[str, str]], Dict[str, Any]]:
+    """An addon coroutine owns an async subscription (what BaseAddon tasks, XferManager, TransferManager do), leaves it by
+    some route, and *afterwards* two matching datagrams (unreliable/reliable in both orders) and one non-matching probe
+    per direction arrive.  After the subscription has ended by ANY route: every later datagram is forwarded exactly once,
+    the proxy makes no PacketAck on its behalf, the handler's subscriber count is back to its baseline."""
+    import asyncio
+    ctl = Ctl({})
+    w = U.fresh(1, [], neighbour=False)
+    sends, exc = w.deliver(0, U.socks_wrap(U.use_circuit_code(0, 1), U.SIMS[0]), U.VIEWERS[0])
+    if exc is not None or len(sends) != 1:
+        raise RuntimeError(f"C07 async setup: UseCircuitCode not forwarded ({sends!r}, {exc!r})")
+    s = w.sessions[0]
+    region = w.region(0, 0)
+    s.main_region = region
+    proto = w.protos[0]
+    real_deser = proto.deserializer.deserialize
+
+    def deser_tap(data):
+        m = real_deser(data)
+        ctl.msgs.append((ctl.phase, m))
+        return m
+    proto.deserializer.deserialize = deser_tap
+    circuit = region.circuit
+    real_send = circuit._send_prepared_message
+
+    def send_tap(message, transport=None):
+        n0 = len(w.sends)
+        try:
+            return real_send(message, transport)
+        finally:
+            ctl.emissions.append((ctl.phase, message, len(w.sends) - n0))
+    circuit._send_prepared_message = send_tap
+
+    H = s.message_handler if level == "session" else region.message_handler
+    name = "ChatFromViewer" if d == OUT else "ChatFromSimulator"
+
+    def n_subs():
+        ev = H.handlers.get(name)
+        return len(ev) if ev is not None else 0
+    baseline = n_subs()
+    site = f"async:{api}:{level}:{beh}" + (f":timeout={tmo}" if api == "wait_for" else "") + f":take={take}"
+    viols: List[Dict[str, str]] = []
+
+    def bad(clause, detail):
+        viols.append({"clause": clause, "site": site, "detail": detail})
+
+    pids = {OUT: 2, IN: 1}
+
+    def send(kind_or_msg, dd, flags, phase):
+        ctl.phase = phase
+        pid = pids[dd]
+        pids[dd] += 1
+        if kind_or_msg == "match":
+            lludp = _msg("ordinary", dd, pid, flags, ())
+        elif dd == OUT:
+            lludp = U.serialize(Message("AgentPause", Block("AgentData", AgentID=U.session_uuid(0, 2), SessionID=U.session_uuid(0, 0),
+                                                            SerialNum=1), packet_id=pid, flags=flags))
+        else:
+            lludp = U.serialize(Message("HealthMessage", Block("HealthData", Health=1.0), packet_id=pid, flags=flags,
+                                        direction=Direction.IN))
+        data, src = (U.socks_wrap(lludp, U.SIMS[0]), U.VIEWERS[0]) if dd == OUT else (lludp, U.SIMS[0])
+        psends, pexc = w.deliver(0, data, src)
+        om = [m for ph, m in ctl.msgs if ph == phase]
+        o = om[0] if om else None
+        peer = U.SIMS[0] if dd == OUT else U.VIEWERS[0]
+        return {"exc": pexc, "n_orig": sum(n for ph, m, n in ctl.emissions if m is o) if o is not None else 0,
+                "to_peer": sum(1 for x in psends if x[2] == peer),
+                "proxy_acks": sum(n for ph, m, n in ctl.emissions if ph == phase and m is not o and m.name == "PacketAck"),
+                "other": sum(n for ph, m, n in ctl.emissions if ph == phase and m is not o and m.name != "PacketAck")}
+
+    got: List[Any] = []
+    task = fut = None
+    if api == "subscribe_async":
+        async def addon_task():
+            with H.subscribe_async((name,), take=take) as get_msg:
+                if beh == "raise_before":
+                    raise Exception("addon failure before any message")
+                if beh == "exit_before":
+                    return
+                got.append(await get_msg())
+                if beh == "raise_after_1":
+                    raise Exception("addon failure after message 1")
+                if beh == "cancel_after_1":
+                    got.append(await get_msg())
+        task = w.loop.create_task(addon_task())
+        w.loop.run_ready()
+        inside = beh in ("cancel_waiting", "exit_after_1", "raise_after_1", "cancel_after_1")
+        if inside and n_subs() != baseline + 1:
+            bad("subscriber-count", f"inside the block: {n_subs()} subscribers, expected {baseline + 1}")
+        if beh == "cancel_waiting":
+            task.cancel()
+            w.loop.run_ready()
+        elif beh in ("exit_after_1", "raise_after_1", "cancel_after_1"):
+            r = send("match", d, 0x40 if rel1 else 0, "msg1")
+            want = 0 if take else 1
+            if r["n_orig"] != want or r["exc"] is not None:
+                bad("claim-respected" if take else "exactly-once-unless-claimed",
+                    f"message 1 inside the block (take={take}): original emitted {r['n_orig']} times, expected {want}; exception={r['exc']!r}")
+            if take and r["proxy_acks"] != (1 if rel1 else 0):
+                bad("claim-respected", f"message 1 taken by the subscriber (reliable={rel1}): {r['proxy_acks']} proxy PacketAck, expected {1 if rel1 else 0}")
+            if len(got) != 1:
+                bad("subscriber-count", f"the subscriber coroutine received {len(got)} messages, expected 1")
+            if beh == "cancel_after_1":
+                task.cancel()
+                w.loop.run_ready()
+        if not task.done():
+            bad("subscriber-count", "the addon task has not finished although its block was left")
+        elif not task.cancelled():
+            task.exception()   # retrieve, so that the loop does not log it
+    else:
+        fut = H.wait_for((name,), timeout=tmo, take=take)
+        w.loop.run_ready()
+        if n_subs() != baseline + 1:
+            bad("subscriber-count", f"while waiting: {n_subs()} subscribers, expected {baseline + 1}")
+        if beh == "got_1":
+            r = send("match", d, 0x40 if rel1 else 0, "msg1")
+            want = 0 if take else 1
+            if r["n_orig"] != want or r["exc"] is not None or not fut.done():
+                bad("claim-respected" if take else "exactly-once-unless-claimed",
+                    f"awaited message (take={take}): original emitted {r['n_orig']} times, expected {want}; future done={fut.done()} exception={r['exc']!r}")
+            if tmo:
+                w.loop.advance(tmo + 0.5)   # the cancelled timeout task must not disturb anything later
+        elif beh == "timeout":
+            w.loop.advance(tmo + 0.5)
+            if not fut.done() or fut.cancelled() or not isinstance(fut.exception(), asyncio.TimeoutError):
+                bad("subscriber-count", f"wait_for(timeout={tmo}) did not fail with TimeoutError after {tmo + 0.5}s of virtual time")
+        else:
+            fut.cancel()
+            w.loop.run_ready()
+    # ---- the subscription is over: later traffic
+    # A cancelled wait_for future: the statement is about traffic, so only lost/acked later datagrams are violations
+    # (own clause, flagged in the report); the subscriber that merely lingers until the next matching message is counted.
+    wf_cancel = api == "wait_for" and beh == "cancel"
+    leak_clause = "waitfor-cancel-leak" if wf_cancel else "subscriber-leak"
+    left_behind = n_subs() - baseline
+    if left_behind and not wf_cancel:
+        bad(leak_clause, f"after the subscription ended ({beh}): handler has {n_subs()} subscribers for {name}, baseline {baseline}")
+    later = [("match", d, 0), ("match", d, 0x40)] if order == 0 else [("match", d, 0x40), ("match", d, 0)]
+    later += [("probe", d, 0), ("probe", IN if d == OUT else OUT, 0x40)]
+    for n, (what, dd, flags) in enumerate(later):
+        r = send(what, dd, flags, f"later{n}")
+        lost = r["n_orig"] != 1 or r["to_peer"] < 1 or r["exc"] is not None
+        if lost:
+            bad(leak_clause if what == "match" and leak_clause == "waitfor-cancel-leak" else "next-datagram-forwarded",
+                f"later datagram #{n} ({what}, {dd}, flags={flags:#x}) after {beh}: original emitted {r['n_orig']} times, "
+                f"to right peer {r['to_peer']}, exception={r['exc']!r}")
+        if r["proxy_acks"] or r["other"]:
+            bad(leak_clause if what == "match" and leak_clause == "waitfor-cancel-leak" else "no-proxy-ack-for-forwarded",
+                f"later datagram #{n} ({what}, {dd}, flags={flags:#x}) after {beh}: proxy emitted {r['proxy_acks']} PacketAck and "
+                f"{r['other']} other messages of its own")
+    if n_subs() != baseline:
+        bad(leak_clause, f"at the end: handler has {n_subs()} subscribers for {name}, baseline {baseline}")
+    info = {"n_viol": len(viols), "subs": left_behind, "wf_cancel_left_behind": bool(wf_cancel and left_behind), "task": None if task is None else ("cancelled" if task.cancelled() else "done")}
+    return viols, info
+
+
+def _async_worker(chunk):
+    part = Part()
+    for case in chunk:
+        part.count("evaluations")
+        part.count("async_cases")
+        viols, info = async_case(*case)
+        part.outcome(("async", case[0], case[3], case[2], info["subs"], info["task"], info["n_viol"]))
+        if info["wf_cancel_left_behind"]:
+            part.count("waitfor_cancelled_subscriber_left_until_next_message")
+        part.mark_nontrivial(("async", case))
+        seen = set()
+        for v in viols:
+            if v["clause"] in seen:
+                continue
+            seen.add(v["clause"])
+            part.violation(v["clause"], v["site"], {"kind": "async", "case": list(case)}, v["detail"])
+    return part.dump()
+
+
 def _chunks(items, n):
     return [items[i:i + n] for i in range(0, len(items), n)]
 
@@ -757,7 +957,9 @@ def run(run: Run):
         "ownership combinations the proxy itself rejects with RuntimeError are checked for the wire clauses and probes only and counted (DESIGN soundness note)",
         "BaseException subclasses outside Exception (KeyboardInterrupt/SystemExit-like) are not raised by hooks",
         "pairs use the representative behaviour list (false stands for 0/'', valueerror+custom for exc), triples the reduced list; singles use the full list",
-        "async subscribers / wait_for / subscribe_async are represented by the sync subscriber behaviour 'take' (what their wrappers do)",
+        "in the hook enumeration async subscribers are represented by the sync subscriber behaviour 'take' (what their wrappers do); the "
+        "subscription life cycle itself (subscribe_async left normally / by exception / by cancellation, wait_for satisfied / timed out / "
+        "cancelled) is enumerated separately on the virtual loop (async family)",
     ]
     items = []
     for msg in MESSAGES:
@@ -774,7 +976,9 @@ def run(run: Run):
                         mitems.append((d, rel, wa, seq))
     for d in pmap(_machine_worker, _chunks(mitems, 128), run.jobs, chunksize=1):
         run.merge(d)
-    run.coverage_extra.update(hook_cases=int(run.counters.get("hook_cases", 0)), machine_cases=int(run.counters.get("machine_cases", 0)),
+    for d in pmap(_async_worker, _chunks(list(async_cases()), 16), run.jobs, chunksize=1):
+        run.merge(d)
+    run.coverage_extra.update(async_cases=int(run.counters.get("async_cases", 0)), hook_cases=int(run.counters.get("hook_cases", 0)), machine_cases=int(run.counters.get("machine_cases", 0)),
                               messages=len(MESSAGES), fault_bound="singles+pairs" + ("+triples(one per addon)" if run.tier == "thorough" else ""))
     run.sample({"msg": ["command", OUT, 1], "assign": [["ss", 0, "take"]], "note": "single legal action + command channel"})
     run.sample({"msg": ["rlv2", IN, 0], "assign": [["rlv", 1, "true_first"], ["lu", 0, "valueerror"]]})
@@ -787,6 +991,9 @@ def replay(witness):
     if kind == "hooks":
         vs, info = execute(tuple(witness["msg"]), tuple(tuple(a) for a in witness["assign"]))
         return vs
+    if kind == "async":
+        c = list(witness["case"])
+        return async_case(*c)[0]
     if kind == "machine":
         return machine_case(witness["dir"], int(witness["rel"]), int(witness["acks"]), tuple(witness["seq"]))
     raise ValueError(kind)
